@@ -1,4 +1,5 @@
 import FlodymProofs.Lemmas.BuildDict
+import FlodymGen.IOSites
 /-!
 # C18 — systems built from definitions and files match what was defined
 
@@ -497,6 +498,14 @@ theorem csv_int_column (col : List String) (h : ∀ s ∈ col, isIntText s = tru
   unfold csvColumnCells
   have : col.all isIntText = true := by rw [List.all_eq_true]; exact h
   rw [this]; simp
+
+/-! ## the source as the model reads it (regenerated on every run) -/
+
+/-- the readers keep labels such as "NA" (D24), open the first sheet when none is named (D15), and
+`make_empty_stocks` hands the solver on (D23) -/
+theorem source_build_sites :
+    Gen.dimReadersKeepLabels = true ∧ Gen.excelDefaultSheetIsFirst = true ∧ Gen.stocksGetSolver = true := by
+  decide
 
 /-! ## non-vacuity: a concrete definition meets the hypotheses -/
 
